@@ -213,7 +213,19 @@ def wl_history(ctx, rng, i):
         if form == "dict":
             # "any versionable ... dictionary": also the dictionary classes of the standard library, and content of a later
             # spec version than the library knows (whatever its rules are, a new version is never earlier than the old one)
-            mk = rng.choice(["dict", "dict", "OrderedDict", "defaultdict"])
+            mk = rng.choice(["dict", "dict", "OrderedDict", "defaultdict", "dict(object)"])
+            if mk == "dict(object)":
+                # the dictionary view of a library object: its values are the library's own timestamp objects, embedded objects, lists
+                try:
+                    with warnings.catch_warnings():
+                        warnings.simplefilter("ignore")
+                        asobj = stix2.parse(json.dumps(base), allow_custom=True)
+                    if not isinstance(asobj, dict):
+                        cur = dict(asobj)
+                    else:
+                        mk = "dict"
+                except Exception:
+                    mk = "dict"
             if mk == "OrderedDict":
                 cur = collections.OrderedDict(cur)
             elif mk == "defaultdict":
@@ -425,6 +437,11 @@ def wl_sco_locked(ctx, rng, i):
     d = json.loads(sco.serialize())
     # as a dict carrying the three versioning properties as custom content the library lets it be versioned
     d.update({"created": "2020-01-01T00:00:00.000Z", "modified": "2020-01-01T00:00:00.000Z", "revoked": False})
+    if (i // len(cases)) % 2 == 1:
+        # the same identifier in upper-case hexadecimal digits: the same UUID, version 5 all the same
+        tt, uu = d["id"].split("--", 1)
+        d["id"] = tt + "--" + uu.upper()
+        ctx.count("sco_upper_case_ids")
     if i % 3 == 2:
         lv = None
     ctx.ev()
@@ -458,7 +475,94 @@ def wl_sco_locked(ctx, rng, i):
         ctx.count("sco_free_changes")
     except family() as e:
         ctx.violation("legal-operation-refused", "changing non-contributing %s of a %s dict raised %s" % (free, t, type(e).__name__), {"object": d, "attempt": {free: fv}})
+    # the same observable as a library object (the versioning properties as custom content): locked and free properties alike
+    try:
+        with warnings.catch_warnings():
+            warnings.simplefilter("ignore")
+            sobj = stix2.parse(dict(d), allow_custom=True)
+    except family():
+        sobj = None
+    if sobj is not None and not isinstance(sobj, dict):
+        ctx.ev()
+        ctx.count("sco_object_form")
+        try:
+            with warnings.catch_warnings():
+                warnings.simplefilter("ignore")
+                r = stix2.versioning.new_version(sobj, **{locked: lv})
+            ctx.violation("sco-contributing-property-changed", "changing id-contributing %s of a UUIDv5 %s object was accepted" % (locked, t),
+                          {"object": d, "form": "object", "attempt": {locked: lv}, "result": to_json(r)})
+        except family():
+            ctx.count("refusals_observed")
+            ctx.count("sco_locked_refusals")
+        try:
+            with warnings.catch_warnings():
+                warnings.simplefilter("ignore")
+                r = stix2.versioning.new_version(sobj, **{free: fv})
+            rj = to_json(r)
+            if rj.get("id") != d["id"] or not compare.generic_equal(rj.get(free), fv) or type(r) is not type(sobj):
+                ctx.violation("change-not-applied", "non-contributing change on an SCO object not applied", {"object": d, "result": rj})
+            if not tsor.text_instant(rj["modified"]) > tsor.text_instant(d["modified"]):
+                ctx.violation("modified-not-strictly-later", "new version of an SCO object: %s is not later than %s" % (rj["modified"], d["modified"]), {"object": d, "result": rj})
+        except family() as e:
+            ctx.violation("legal-operation-refused", "changing non-contributing %s of a %s object raised %s: %s" % (free, t, type(e).__name__, str(e)[:100]), {"object": d, "attempt": {free: fv}})
     ctx.nontrivial("sco-locked", t)
+
+
+def wl_remove_custom(ctx, rng, i):
+    """remove_custom_stix is a versioning operation too: a new version without the x_ properties, or the object itself if it has none,
+    or nothing for an object of an x- type; the original is left as it was."""
+    import stix2
+    import stix2.versioning
+    clk = ctx.state["clock"]
+    ver, t = SUBJECTS[i % len(SUBJECTS)]
+    form = "dict" if (i // len(SUBJECTS)) % 2 else "object"
+    base = make_base(rng, ver, t)
+    base.pop("revoked", None)
+    ncustom = (i // 3) % 3
+    for k in range(ncustom):
+        base["x_removable_%d" % k] = rng.choice([1, "s", [1, 2], {"k": "v"}])
+    try:
+        with warnings.catch_warnings():
+            warnings.simplefilter("ignore")
+            cur = stix2.parse(json.dumps(base), allow_custom=True) if form == "object" else dict(base)
+    except family():
+        ctx.skip("base refused")
+        return
+    if form == "object" and isinstance(cur, dict):
+        form = "dict"
+    prev_j = to_json(cur)
+    prev_text = json.dumps(prev_j, sort_keys=True)
+    rel = list(DELTAS)[i % len(DELTAS)]
+    clk.set(tsor.text_us(prev_j["modified"]) + DELTAS[rel])
+    ctx.ev()
+    try:
+        with warnings.catch_warnings():
+            warnings.simplefilter("ignore")
+            new = stix2.versioning.remove_custom_stix(cur)
+    except family() as e:
+        ctx.violation("legal-operation-refused", "remove_custom_stix on a %s %s (%s, %d custom properties) raised %s: %s" % (ver, t, form, ncustom, type(e).__name__, str(e)[:120]),
+                      {"operation": "remove_custom_stix", "previous": prev_j, "exception": type(e).__name__})
+        return
+    ctx.count("remove_custom_calls")
+    ctx.nontrivial("remove-custom", ver, t, form, ncustom, rel)
+    ctx.see("operations", "remove_custom_stix")
+    if t.startswith("x-"):
+        if new is not None:
+            ctx.violation("custom-object-kept", "remove_custom_stix of an object of custom type %s returned something" % t, {"previous": prev_j, "result": to_json(new)})
+        return
+    if new is None:
+        ctx.violation("change-not-applied", "remove_custom_stix of a %s returned nothing" % t, {"previous": prev_j})
+        return
+    nj = to_json(new)
+    left = [k for k in nj if k.startswith("x_")]
+    if left:
+        ctx.violation("change-not-applied:removal", "remove_custom_stix left %s" % left, {"previous": prev_j, "new": nj})
+    if ncustom:
+        judge_step(ctx, "remove_custom_stix()", prev_j, nj, {k: None for k in prev_j if k.startswith("x_")}, ver, rel, {"form": form, "type": t, "generated_modified": True})
+    elif nj != prev_j:
+        ctx.violation("unrequested-change", "remove_custom_stix of an object without custom properties changed it", {"previous": prev_j, "new": nj})
+    if json.dumps(to_json(cur), sort_keys=True) != prev_text:
+        ctx.violation("original-modified-by-versioning", "remove_custom_stix changed the original", {"before": prev_j, "after": to_json(cur)})
 
 
 def wl_interop(ctx, rng, i):
@@ -521,9 +625,10 @@ def cls_for(ver, t):
 
 
 WORKLOADS = [
+    Workload("remove-custom", wl_remove_custom, quick=lambda: len(SUBJECTS) * 3, thorough=lambda: len(SUBJECTS) * 60),
     Workload("interoperability", wl_interop, quick=48, thorough=2400),
     Workload("history", wl_history, quick=lambda: len(SUBJECTS) * 30, thorough=lambda: len(SUBJECTS) * 6000),
-    Workload("sco-locked", wl_sco_locked, quick=24, thorough=1200),
+    Workload("sco-locked", wl_sco_locked, quick=48, thorough=2400),
 ]
 
 
